@@ -522,12 +522,12 @@ Fixpoint match_typed (defs : list ruledef) (m : imatch) {struct m} : bool :=
     end
   end.
 
-Lemma constrain_sized v n c : (forall t, t = TyU n \/ t = TyS n \/ t = TyI n -> True) ->
+Lemma constrain_sized v n c :
   forall t, (t = TyU n \/ t = TyS n \/ t = TyI n) -> constrain v t = EOk c -> should_propagate c = false ->
   sized_as (Z.of_N n) c.
 Proof.
-  intros _ t Ht H P. unfold constrain in H. destruct (coallesce v); try discriminate.
-  destruct Ht as [->|[->|->]];
+  intros t Ht H P. unfold constrain in H. destruct (coallesce v); try discriminate.
+  destruct Ht as [ -> | [ -> | -> ] ];
     match type of H with (if ?c then _ else _) = _ => destruct c end; injection H as <-; try discriminate P;
     intros b' n' Hg Hb; cbn in Hg; injection Hg as <-; cbn in Hb; now injection Hb as <-.
 Qed.
@@ -581,7 +581,7 @@ Proof.
           destruct pt as [|k|k|k|nmr]; try (apply Hs; exact Hz);
             (cbn [slk] in Hz; destruct (text_eqb pn n) eqn:En;
              [apply text_eqb_eq in En; subst n; injection Hz as <-; exists c0; split; [exact Hpnl|];
-              eapply constrain_sized; [intros; exact I| |exact C|exact Pc]; auto
+              eapply constrain_sized; [|exact C|exact Pc]; auto
              |apply Hs; exact Hz]).
         * intros n Hn. cbn [map fst] in Hn. rewrite Hk by (intro; apply Hn; now right).
           cbn [lookup]. rewrite text_eqb_false; [reflexivity|]. intro; subst. apply Hn. now left.
@@ -623,8 +623,8 @@ Lemma resolve_matches_sizes : forall ms rs b,
   exists m s, In m ms /\ (match_static_size defs m = Some s -> size_of b = s).
 Proof.
   unfold resolve_matches. induction ms as [|m ms IH]; intros rs b Ht H Hin.
-  - injection H as <-. destruct Hin.
-  - destruct (resolve_match defs pv m) as [v|] eqn:E; [|discriminate].
+  - change (EOk (@nil mres) = EOk rs) in H. injection H as <-. destruct Hin.
+  - cbn beta iota in H. destruct (resolve_match defs pv m) as [v|] eqn:E; [|discriminate].
     assert (Ht' : forall m', In m' ms -> match_typed defs m' = true) by (intros; apply Ht; now right).
     assert (Rec : forall l, (fix go (ms : list imatch) : eres (list mres) :=
         match ms with [] => EOk [] | m :: r => match resolve_match defs pv m with EErr => EErr | EOk v =>
